@@ -69,6 +69,12 @@ NEEDED = {
     "S-C15-6": "none for C15: the change is in the TLS transport's receive path (a cancelled receive writes EOF into the read BIO); C10's tls layer catches it; C15 drives the server over plain in-memory transports",
     "S-C17-6": "C17 distinct values for ssl_handshake_timeout / ssl_shutdown_timeout and the rule 'a stalled handshake is dropped at the handshake timeout' (virtual time, asynchronous server); StandaloneTCPNetworkServer with TLS and a stalled client (real time, verdict at 30x the configured value)",
     "S-C19-6": "C19 real connects: the stock AsyncIODNSResolver.connect_socket() over loopback with a black-holed address (full accept queue), a refused port and a reachable server; census of leftover tasks and selector registrations, then a fresh connection that reuses the abandoned descriptor numbers",
+    "S-C01-6": "none for C01: the change is in the asyncio socket adapter's internal read buffer (backlog larger than the reader's buffer), outside C01's producers / consumers; C10 and C03 drive that adapter over real sockets and catch it",
+    "S-C05-6": "none for C05: RecursionError escaping the one-shot JSON deserializer on a deeply nested datagram is a foreign exception on malformed input, C06's subject; C06 catches it (C05's generators do not produce resource-exhausting inputs)",
+    "S-C06-6": "NOT CAUGHT by any check: StringLineSerializer(debug=True) loses the remainder after an undecodable line; no harness configuration enables the serializers' debug option (recorded as a coverage gap in section 10)",
+    "S-C08-7": "C12: a send lock left held by a returned call is now a verdict instead of a hung worker (close() of the harness runs aside with a bound; common join deadline); before that the check hung for 40 minutes (2 x watchdog) and ended inconclusive. The quick tier still needs more than 25 minutes on this change; C11's virtual lock does not check that the lock is released (gap recorded in section 10)",
+    "S-C16-7": "NOT CAUGHT by any check: CancelScope.__exit__ keeps the delayed re-cancel when a shielded body ends with an ordinary exception after the deadline; C13's generated programs have no statement that raises inside a shielded section (recorded as a coverage gap in section 10)",
+    "S-C20-7": "NOT CAUGHT by any check: ThreadsPortal.run_coroutine_soon() future.cancel() from a foreign thread uses call_soon() (no loop wake-up); no check cancels a portal future while the loop is idle (recorded as a coverage gap in section 10)",
     "S-C04-2": "C04 interrupted send then resume (C20 caught it before)",
 }
 rows = []
